@@ -50,6 +50,11 @@ def inquiry_pool(rng, q):
         if t[f] is not q[f]:
             pool.append(t)
     pool.append(gen_inquiry(rng))
+    # a tuple-valued field (tuples and lists are different values for the rules; asking must leave the tuple a tuple)
+    t = dict(q)
+    f = pick(rng, ['resource', 'action', 'subject'])
+    t[f] = tuple(q[f]) if isinstance(q[f], list) else pick(rng, [('read', 'write'), (1, 2), (q[f],) if not isinstance(q[f], (dict, list)) else ('x',)])
+    pool.append(t)
     return pool
 
 
@@ -130,6 +135,11 @@ def run(ctx):
                 st.add(o)
         out.count('storage:' + skind)
         guard = Guard(st, polcase.make_checker(k, (cap,)))
+        if rng.random() < 0.25:
+            # the same through the decision cache (every ask hashes and compares the inquiry): still nothing may change
+            from vakt.cache import create_cached_guard
+            guard = create_cached_guard(st, polcase.make_checker(k, (cap,)), maxsize=pick(rng, [None, 1, 2, 64]))[0]
+            out.count('guard:cached')
         pool = inquiry_pool(rng, case['inquiry'])
         seq = [pick(rng, pool) for _ in range(rng.randint(2, 30))]
         seq.append(seq[0])
